@@ -255,7 +255,7 @@ func c19(r *rep.Run) {
 			}
 		}
 	}
-	for _, l := range []interface{}{int64(0), int64(5), int64(-1), "3", true} {
+	for _, l := range []interface{}{int64(0), int64(5), int64(-1), "3", true, int64(6), int64(255), int64(256), int64(257), int64(258), int64(259), int64(260), int64(261), int64(513), int64(-255), int64(-252), int64(65537), int64(1<<32 + 3), int64(1<<63 - 1), int64(-1 << 63), int64(1<<63 - 4)} {
 		for _, name := range verNames {
 			if got := c.call(name, []interface{}{"1.2.3", l}, false); got.Err == nil {
 				r.Violate("version-accepts-invalid", name+"len", sprintf("(%s \"1.2.3\" %v) accepts a valid length outside 1..4: %s", name, l, got), nil)
@@ -317,7 +317,18 @@ func c19(r *rep.Run) {
 				dcases = append(dcases, dcase{n, []interface{}{strings.Replace(dt, " ", "T", 1) + off.txt, "2006-01-02T15:04:05Z07:00"}, s.unix - off.secs})
 			}
 		}
+		// layouts with non-padded elements accept the padded and the non-padded spelling
+		for _, n := range []string{"datetime", "t_time", "date"} {
+			dcases = append(dcases, dcase{n, []interface{}{dt, "2006-1-2 15:4:5"}, s.unix},
+				dcase{n, []interface{}{fmt.Sprintf("%04d-%d-%d %02d:%d:%d", s.y, s.mo, s.d, s.h, s.mi, s.s), "2006-1-2 15:4:5"}, s.unix})
+		}
+		for _, off := range []string{"+00:00", "-00:00"} {
+			dcases = append(dcases, dcase{"t_time", []interface{}{strings.Replace(dt, " ", "T", 1) + off, "2006-01-02T15:04:05Z07:00"}, s.unix})
+		}
 		if s.h == 0 && s.mi == 0 && s.s == 0 {
+			for _, n := range []string{"date", "t_date", "to_date"} {
+				dcases = append(dcases, dcase{n, []interface{}{d, "2006-1-2"}, midnight}, dcase{n, []interface{}{fmt.Sprintf("%04d-%d-%d", s.y, s.mo, s.d), "2006-1-2"}, midnight})
+			}
 			for _, n := range []string{"date", "to_date", "td_date"} {
 				dcases = append(dcases, dcase{n, []interface{}{d}, midnight})
 			}
